@@ -142,6 +142,21 @@ def env_of(it):
 
 
 class EnvironModel:
+    def getattr_(self, it, name, node):
+        if name == 'get':
+            def get(it_, key, default=None):
+                if not isinstance(key, str):
+                    raise Unsupported('symbolic environment variable name')
+                v = env_of(it_).getenv(key)
+                return default if v is None else v
+            return _M(get)
+        raise Unsupported(f'os.environ.{name}')
+
+    def contains(self, it, key, node):
+        if not isinstance(key, str):
+            raise Unsupported('symbolic environment variable name')
+        return env_of(it).getenv(key) is not None
+
     def getitem(self, it, key, node):
         e = env_of(it)
         if not isinstance(key, str):
